@@ -114,43 +114,83 @@ pub fn observe_interrupted(sess: &mut dyn Driver, p: &Pos, out: &Outcome, fresh:
     true
 }
 
-/// every interruption point n = 1..T of `go depth D` on p (stride > 1 samples them)
+/// what every completed iteration of an uninterrupted search of (p, depth) reports, on a fresh engine
+pub fn reference_iterations(p: &Pos, depth: u64) -> Option<Vec<(u32, Option<String>, Option<Reported>)>> {
+    let mut s = InProc::new();
+    s.record_infos = false;
+    let o = search(&mut s, Some((&Some(p.to_fen()), &[])), &GoSpec::depth(depth)).ok()?;
+    let mut v: Vec<(u32, Option<String>, Option<Reported>)> = Vec::new();
+    for i in &o.infos {
+        if let (Some(d), Some(pv)) = (i.depth, &i.pv) {
+            if v.last().map_or(true, |l| l.0 != d) { v.push((d, pv.first().cloned(), reported(i))); }
+        }
+    }
+    Some(v)
+}
+
+/// Every interruption point n = 1..T of `go depth D` on p (stride > 1 samples them), for both
+/// ways the search can be interrupted at a poll: `expiry` (move time found expired: the poll
+/// returns at once) and `stop` (a stop message found in the mailbox: the flag is raised and the
+/// search carries on until it next looks at it). A fresh engine is used for every point so that
+/// the interrupted run is identical to the uninterrupted reference run up to the interruption.
 pub fn enumerate(p: &Pos, depth: u64, stride: u64, rep: &mut Report) {
     let fen = p.to_fen();
     let fresh = match fresh_depth1(p) { Some(f) => f, None => { rep.inconclusive("fresh engine did not answer"); return; } };
-    let mut sess = InProc::new();
-    sess.record_infos = false;
     hook::set_poll_interval(1);
-    let mut n = 1u64;
+    let reference = match reference_iterations(p, depth) { Some(r) => r, None => { hook::set_poll_interval(0); rep.inconclusive("reference search did not answer"); return; } };
     let mut points = 0u64;
-    loop {
-        let replay = json!({"kind":"c09-enum","fen":fen,"depth":depth,"abort_at":n});
-        hook::abort_at_node(n);
-        let out = search(&mut sess, Some((&Some(fen.clone()), &[])), &GoSpec::depth(depth));
-        hook::abort_at_node(0);
-        let out = match out {
-            Ok(o) => o,
-            Err(e) if e == "watchdog" => { rep.inconclusive("watchdog fired"); break; }
-            Err(e) => { rep.violation("engine-dead-during-interrupted-search", format!("{} depth {} abort at {}: {}", fen, depth, n, e), replay); break; }
-        };
-        let aborted = out.board_dump().and_then(|d| parse_dump(d)).map_or(false, |d| d.abort_node > 0);
-        if !aborted {
-            rep.add("sum_nodes_of_enumerated_searches", n - 1);
-            rep.max("max_nodes_of_an_enumerated_search", n - 1);
-            break;
+    for kind in ["expiry", "stop"] {
+        let mut n = 1u64;
+        loop {
+            let replay = json!({"kind":"c09-enum","fen":fen,"depth":depth,"abort_at":n,"how":kind});
+            let mut sess = InProc::new();
+            sess.record_infos = false;
+            if kind == "expiry" { hook::abort_at_node(n); } else { hook::stop_at_node(n); }
+            let out = search(&mut sess, Some((&Some(fen.clone()), &[])), &GoSpec::depth(depth));
+            hook::abort_at_node(0);
+            hook::stop_at_node(0);
+            let out = match out {
+                Ok(o) => o,
+                Err(e) if e == "watchdog" => { rep.inconclusive("watchdog fired"); break; }
+                Err(e) => { rep.violation("engine-dead-during-interrupted-search", format!("{} depth {} {} at {}: {}", fen, depth, kind, n, e), replay); break; }
+            };
+            let dump = out.board_dump().and_then(|d| parse_dump(d));
+            let aborted = dump.as_ref().map_or(false, |d| d.abort_node > 0);
+            if !aborted {
+                rep.add("sum_nodes_of_enumerated_searches", n - 1);
+                rep.max("max_nodes_of_an_enumerated_search", n - 1);
+                break;
+            }
+            rep.eval();
+            points += 1;
+            rep.count(&format!("interruptions_by_{}", kind));
+            // the answer must be exactly what the last completed iteration of the reference run reported
+            let d = dump.unwrap();
+            if d.iter >= 2 {
+                let want = reference.iter().find(|r| r.0 as u64 == d.iter - 1);
+                let last = out.infos.iter().rev().find(|i| i.depth.is_some());
+                let claimed = last.and_then(|i| i.depth).unwrap_or(0) as u64;
+                if claimed != d.iter - 1 {
+                    rep.violation(&format!("interrupted-search-claims-wrong-depth:{}", kind), format!("{}: interrupted ({}) in iteration {} at node {}, but the final info line claims depth {}", fen, kind, d.iter, d.abort_node, claimed), replay.clone());
+                }
+                if let Some((_, best, score)) = want {
+                    let got_score = out.infos.iter().rev().find(|i| i.pv.is_some()).and_then(reported);
+                    if &out.best != best || &got_score != score {
+                        rep.violation(&format!("interrupted-answer-differs-from-last-completed-iteration:{}", kind), format!("{}: interrupted ({}) in iteration {} at node {}: answered {:?} / {:?}; iteration {} of the uninterrupted search gave {:?} / {:?}", fen, kind, d.iter, d.abort_node, out.best, got_score, d.iter - 1, best, score), replay.clone());
+                    }
+                    rep.count("answers_compared_with_reference_iteration");
+                }
+            }
+            if !observe_interrupted(&mut sess, p, &out, &fresh, rep, &replay, &format!("enumerated-{}", kind), true) { break; }
+            n += stride;
         }
-        rep.eval();
-        points += 1;
-        if !observe_interrupted(&mut sess, p, &out, &fresh, rep, &replay, "enumerated", true) { break; }
-        sess.events.clear();
-        n += stride;
     }
     hook::set_poll_interval(0);
     rep.add("interruption_points_enumerated", points);
     rep.count("searches_enumerated");
     if stride == 1 { rep.count("searches_enumerated_completely"); }
     if rep.samples.len() < 5 {
-        rep.sample(json!({"fen": fen, "depth": depth, "interruption_points": points, "stride": stride}));
+        rep.sample(json!({"fen": fen, "depth": depth, "interruption_points": points, "stride": stride, "iterations": reference.iter().map(|r| format!("depth {} best {:?} score {:?}", r.0, r.1, r.2)).collect::<Vec<_>>()}));
     }
 }
 
@@ -166,9 +206,10 @@ pub fn consecutive(p: &Pos, depth: u64, rng: &mut StdRng, rep: &mut Report, tota
     let replay = json!({"kind":"c09-consecutive","fen":fen,"depth":depth,"abort_points":points});
     let _ = sess.send(&Gui::Position { fen: Some(fen.clone()), moves: vec![] });
     for (i, n) in points.iter().enumerate() {
-        hook::abort_at_node(*n);
+        if (i + points.len()) % 2 == 0 { hook::abort_at_node(*n); } else { hook::stop_at_node(*n); }
         let out = search(&mut sess, None, &GoSpec::depth(depth));
         hook::abort_at_node(0);
+        hook::stop_at_node(0);
         match out {
             Ok(o) => { rep.eval(); if !observe_interrupted(&mut sess, p, &o, &fresh, rep, &replay, "consecutive", i + 1 == points.len()) { break; } }
             Err(e) if e == "watchdog" => { rep.inconclusive("watchdog fired"); break; }
@@ -243,7 +284,7 @@ pub fn positions_for_enumeration(rng: &mut StdRng, n: usize) -> Vec<(Pos, u64)> 
 pub fn run(args: &monlib::Args, rep: &mut Report) {
     let mut rng = gen::rng(args.seed, args.shard, 9);
     let n_pos = (args.budget(160, 1600) / args.nshards.max(1)).max(1) as usize;
-    let max_points = if args.thorough { u64::MAX } else { 700 };
+    let max_points = if args.thorough { u64::MAX } else { 350 };
     for (p, depth) in positions_for_enumeration(&mut rng, n_pos) {
         // learn T (uninterrupted, poll interval 1) to choose the stride
         hook::set_poll_interval(1);
@@ -284,9 +325,10 @@ pub fn replay(case: &monlib::Value, rep: &mut Report) {
             let fresh = fresh_depth1(&p).unwrap();
             let mut sess = InProc::new();
             hook::set_poll_interval(1);
-            hook::abort_at_node(n);
+            if case["how"].as_str() == Some("stop") { hook::stop_at_node(n); } else { hook::abort_at_node(n); }
             let out = search(&mut sess, Some((&Some(p.to_fen()), &[])), &GoSpec::depth(depth)).unwrap();
             hook::abort_at_node(0);
+            hook::stop_at_node(0);
             observe_interrupted(&mut sess, &p, &out, &fresh, rep, case, "enumerated", true);
             hook::set_poll_interval(0);
         }
